@@ -42,6 +42,16 @@ THEOREMS = [
     "Opacus.C01.layerNormGS_repaired_ok",
     "Opacus.C01.layer_norm_nobias_counterexample",
     "Opacus.C01.sampler_adjoint_sequence_bias",
+    "Opacus.C01.sampler_adjoint_conv1d",
+    "Opacus.C01.sampler_adjoint_conv2d",
+    "Opacus.C01.sampler_adjoint_conv3d",
+    "Opacus.C01.as_strided_unfold2d_eq",
+    "Opacus.C01.as_strided_unfold2d_eq_repaired",
+    "Opacus.C01.faithful_layouts",
+    "Opacus.GS.unfold3d_eq_window",
+    "Opacus.GS.conv_groups_diag",
+    "Opacus.C01.unfold2d_channels_last_counterexample",
+    "Opacus.C01.conv_padding_mode_counterexample",
 ]
 RULE = (
     "sampler case = (layer type, hyper-parameters, requires_grad pattern, shapes incl. N=0 and extra middle axes, memory layout of "
@@ -63,7 +73,9 @@ PARTIAL = [
 WITNESS = {
     # known-defect witnesses: Lean `_counterexample` inputs replayed on the real samplers
     "D2": "Opacus.C01.embedding_padding_counterexample",
+    "D17": "Opacus.C01.conv_padding_mode_counterexample",
     "D18": "Opacus.C01.layer_norm_nobias_counterexample",
+    "D19": "Opacus.C01.unfold2d_channels_last_counterexample",
     "D22": "Opacus.C01.embedding_bag_duplicate_counterexample",
 }
 
@@ -73,6 +85,10 @@ ARCH_WITNESS = {
            "layers": [{"t": "Embedding", "V": 2, "D": 1, "pad": 0}]},
     "D2-ew": {"mode": "ew", "batch_first": True, "reduction": "sum", "B": 1, "seed": 1, "kind": "tok", "V": 2, "shape": [1], "force_token": 0,
               "layers": [{"t": "Embedding", "V": 2, "D": 1, "pad": 0}]},
+    "D17": {"mode": "hooks", "batch_first": True, "reduction": "sum", "B": 1, "seed": 1, "kind": "c2", "shape": [1, 2, 2],
+            "layers": [{"t": "Conv", "nd": 2, "in": 1, "out": 1, "k": [2, 2], "s": [1, 1], "p": [1, 1], "d": [1, 1], "g": 1, "bias": False, "pm": "reflect"}]},
+    "D19": {"mode": "hooks", "batch_first": True, "reduction": "sum", "B": 1, "seed": 1, "kind": "c2", "shape": [2, 2, 2], "in_layout": "channels_last",
+            "layers": [{"t": "Conv", "nd": 2, "in": 2, "out": 1, "k": [1, 1], "s": [1, 1], "p": [0, 0], "d": [1, 1], "g": 1, "bias": False, "pm": "zeros"}]},
     "D18": {"mode": "hooks", "batch_first": True, "reduction": "sum", "B": 1, "seed": 1, "kind": "vec", "shape": [2],
             "layers": [{"t": "LayerNorm", "nshape": [2], "bias": False}]},
     "D22": {"mode": "hooks", "batch_first": True, "reduction": "sum", "B": 1, "seed": 1, "kind": "bag", "shape": [], "V": 2, "bag_lens": [2], "bag_dup": True,
@@ -103,6 +119,15 @@ def detect_variants(ctx):
     eb = nn.EmbeddingBag(2, 1, mode="sum").double()
     r = S.sampler_for(eb)(eb, [torch.tensor([1, 1]), torch.tensor([0])], torch.tensor([[3.0]], dtype=torch.float64))[eb.weight]
     v["D22"] = {3.0: "asCoded", 6.0: "repaired"}.get(float(r[0, 1, 0]), "other")
+    # D17 (Lean conv_padding_mode_counterexample): Conv2d(1,1,2,padding=1,reflect), x=[[1,2],[3,4]], cotangent ones
+    cv = nn.Conv2d(1, 1, 2, padding=1, padding_mode="reflect", bias=False).double()
+    r = S.sampler_for(cv)(cv, [torch.arange(1.0, 5.0, dtype=torch.float64).reshape(1, 1, 2, 2)], torch.ones(1, 1, 3, 3, dtype=torch.float64))[cv.weight]
+    v["D17"] = {(10.0, 10.0, 10.0, 10.0): "asCoded", (27.0, 24.0, 21.0, 18.0): "repaired"}.get(tuple(r.flatten().tolist()), "other")
+    # D19 (Lean unfold2d_channels_last_counterexample): Conv2d(2,1,1) on a channels_last activation
+    cv = nn.Conv2d(2, 1, 1, bias=False).double()
+    xcl = torch.arange(1.0, 9.0, dtype=torch.float64).reshape(1, 2, 2, 2).contiguous(memory_format=torch.channels_last)
+    r = S.sampler_for(cv)(cv, [xcl], torch.tensor([1.0, 10.0, 100.0, 1000.0], dtype=torch.float64).reshape(1, 1, 2, 2))[cv.weight]
+    v["D19"] = {(6251.0, 3625.0): "asCoded", (4321.0, 8765.0): "repaired"}.get(tuple(r.flatten().tolist()), "other")
     for k, val in v.items():
         if val == "other":  # neither behaviour: run the correspondence as coded, it will report the break
             v[k] = "asCoded"
@@ -163,7 +188,11 @@ def run_sampler_cases(ctx, n, variant):
     g = torch.Generator().manual_seed(ctx.rng.randrange(2**31))
     pool = [f for f, w in S.GENERATORS for _ in range(w)]
     cases = [ctx.rng.choice(pool)(ctx.rng, g, variant) for _ in range(n)]
-    replies = ctx.lean_driver("C01", [c["line"] for c in cases])
+    replies = [None] * len(cases)
+    for drv in sorted({c.get("driver", "C01") for c in cases}):
+        idx = [i for i, c in enumerate(cases) if c.get("driver", "C01") == drv]
+        for i, rep in zip(idx, ctx.lean_driver(drv, [cases[i]["line"] for i in idx])):
+            replies[i] = rep
     for c, rep in zip(cases, replies):
         ctx.case(c["key"], nontrivial=c["nontrivial"], sample=c["sample"], kind=c["comp"])
         res = c["run"]()
